@@ -46,7 +46,7 @@ def job_initgrid(cls, ka, kb, kc):
     else:
         tu = open(os.path.join(CDIR, 'initgrid3.cpp.in')).read().replace('@BODY@', ex.body).replace('@BODY3@', body3().body)
     obs = ccv.build_and_check('C03.%s.InitializeGrid.%d%d%d' % (cls, ka, kb, kc), cls + '::InitializeGrid', {'ig.cpp': tu}, 'h_init', cxx_std='c++11',
-                              defines=['KA=%d.0' % ka, 'KB=%d.0' % kb, 'KC=%d.0' % kc], unwind=65, timeout=1800, expect_fail=['canary'], checks=['--bounds-check', '--pointer-check', '--div-by-zero-check', '--signed-overflow-check'],
+                              defines=['KA=%d.0' % ka, 'KB=%d.0' % kb, 'KC=%d.0' % kc], unwind=65, timeout=1800, object_bits=12, expect_fail=['canary'], checks=['--bounds-check', '--pointer-check', '--div-by-zero-check', '--signed-overflow-check'],
                               bound='(%d,%d,%d) cells per direction, arbitrary cell' % (ka, kb, kc), route_note='neighbour-cell set of an arbitrary cell')
     for o in obs:
         o['functions'] = [info]
